@@ -8,7 +8,7 @@
 //! Second clause: depth test off + back-to-front sort on scenes with
 //! disjoint depth ranges equals the depth-buffered image.
 
-use super::layers::{gen_flat, shade_plain, solo_layers, Flat, COL_SENT, Z_MARK};
+use super::layers::{gen_flat, shade_cutout, shade_plain, solo_layers_with, Flat, COL_SENT, Z_MARK};
 use super::scene::{render_clip, render_view, Canvas, ClipScene, Tk};
 use crate::{f32v, Cfg, Hasher, Json, Report, Rng};
 use re::math::mat::{perspective, viewport};
@@ -25,13 +25,17 @@ fn fl_json(fl: &Flat) -> Json {
 
 /// Renders a history: a list of render() calls, each a list of triangle
 /// indices, with one depth-sort setting.
-fn render_history(fl: &Flat, calls: &[Vec<usize>], sort: Option<DepthSort>, test: Option<Ordering>) -> Result<(Vec<u32>, Vec<u32>), String> {
+fn render_history(fl: &Flat, calls: &[Vec<usize>], sort: Option<DepthSort>, test: Option<Ordering>, cutout: bool) -> Result<(Vec<u32>, Vec<u32>), String> {
     let to_screen = viewport(pt2(0, 0)..pt2(fl.w, fl.h));
     let ctx = Context { face_cull: None, depth_sort: sort, depth_test: test, ..Context::default() };
     let mut cv = Canvas::new(fl.w, fl.h, (0, 0, fl.w, fl.h), |_, _| COL_SENT, |_, _| 0.0);
     for call in calls {
         let tris: Vec<[usize; 3]> = call.iter().map(|&k| fl.sc.tris[k]).collect();
-        render_clip(&fl.sc, &tris, shade_plain, &ctx, to_screen, &mut cv, Tk::FbOwned)?;
+        if cutout {
+            render_clip(&fl.sc, &tris, shade_cutout, &ctx, to_screen, &mut cv, Tk::FbOwned)?;
+        } else {
+            render_clip(&fl.sc, &tris, shade_plain, &ctx, to_screen, &mut cv, Tk::FbOwned)?;
+        }
     }
     Ok((cv.col.data().to_vec(), cv.dep.data().iter().map(|z| z.to_bits()).collect()))
 }
@@ -65,7 +69,13 @@ fn order_case(rng: &mut Rng, rep: &mut Report, idx: u64) {
     for (p, _) in &fl.sc.verts {
         h.f32s(p);
     }
-    let layers = match solo_layers(&fl, true) {
+    // every fourth scene uses a cut-out (discarding) material: "the nearest
+    // fragment covering a pixel" is then the nearest *non-discarded* one
+    let cutout = idx % 4 == 1;
+    if cutout {
+        rep.count("scenes_with_discarding_shader");
+    }
+    let layers = match solo_layers_with(&fl, true, cutout) {
         Ok(l) => l,
         Err(m) => {
             rep.violation("render.panic", format!("render() panicked: {m}"), fl_json(&fl));
@@ -171,7 +181,7 @@ fn order_case(rng: &mut Rng, rep: &mut Report, idx: u64) {
 
     for (calls, sort, desc) in &hist {
         rep.count("histories_rendered");
-        let (col, z) = match render_history(&fl, calls, *sort, Some(Ordering::Less)) {
+        let (col, z) = match render_history(&fl, calls, *sort, Some(Ordering::Less), cutout) {
             Ok(r) => r,
             Err(m) => {
                 rep.violation("render.panic", format!("render() panicked in history [{desc}]: {m}"), fl_json(&fl));
@@ -193,7 +203,7 @@ fn order_case(rng: &mut Rng, rep: &mut Report, idx: u64) {
                         exp_col[p],
                         f32::from_bits(exp_z[p])
                     ),
-                    fl_json(&fl).set("history", desc.clone()),
+                    fl_json(&fl).set("history", desc.clone()).set("cutout_shader", cutout),
                 );
                 return;
             }
@@ -263,12 +273,13 @@ fn painter_case(rng: &mut Rng, rep: &mut Report) {
 }
 
 pub fn run(cfg: &Cfg, rep: &mut Report) {
-    rep.rule = "case = one scene of 2..10 overlapping / interpenetrating / nested / coplanar-offset / clipped triangles in a buffer ≤ 48 px, rendered under ~20..40 histories (all permutations for n ≤ 4 else 24 random, 8 random ordered partitions into separate calls, all depth_sort settings, one call per triangle reversed); non-trivial = at least one pixel covered by two layers; distinct by hash of the scene; plus painter scenes with disjoint depth slabs".into();
+    rep.rule = "case = one scene (every fourth with a discarding cut-out material) of 2..10 overlapping / interpenetrating / nested / coplanar-offset / clipped triangles in a buffer ≤ 48 px, rendered under ~20..40 histories (all permutations for n ≤ 4 else 24 random, 8 random ordered partitions into separate calls, all depth_sort settings, one call per triangle reversed); non-trivial = at least one pixel covered by two layers; distinct by hash of the scene; plus painter scenes with disjoint depth slabs".into();
     rep.assumptions.push("solo renders of the same rasteriser are the layers; their absolute correctness is C01/C04/C05's subject".into());
     rep.assumptions.push("pixels where two layers have exactly equal reciprocal depth are excluded, as the property states".into());
     rep.run_stream(cfg, 0, "order_histories", cfg.n(30_000, 2_000_000), |rng, i, rep| order_case(rng, rep, i));
     rep.run_stream(cfg, 1, "painter_disjoint_depths", cfg.n(40_000, 2_000_000), |rng, _, rep| painter_case(rng, rep));
     rep.floor("histories_rendered", 50_000);
+    rep.floor("scenes_with_discarding_shader", 1_000);
     rep.floor("pixels_with_overlapping_layers", 200_000);
     rep.floor("painter.pixels_compared", 500_000);
     let _ = ClipScene::<f32> { verts: vec![], tris: vec![] };
